@@ -21,6 +21,9 @@ from spil.util.log import info, warning, debug
 from spil.sid.core import sid_resolver
 from spil.sid.core.query_helper import apply_query
 from spil.sid.pathops import fs_resolver
+from spil.util.exception import SpilException
+from pathlib import Path
+from resolva.utils import ResolvaException
 
 @lru_cache
 def sid_to_sid(sid: str | Sid) -> Sid:
@@ -109,7 +112,11 @@ def path_to_sid(path: str | os.Pathlike[str], config: Optional[str]) -> Sid | No
 
     """
     # resolving
-    _type, fields = fs_resolver.path_to_dict(path, config=config)
+    try:
+        _type, fields = fs_resolver.path_to_dict(path, config=config)
+    except ResolvaException as e:  # eg. a repeated field with different values
+        info(f"Path [{path}] is not conform: {e}")
+        return None
 
     if not fields:
         info(f"Path [{path}] did not resolve to valid Sid fields (config_name:{config}.")
@@ -119,6 +126,14 @@ def path_to_sid(path: str | os.Pathlike[str], config: Optional[str]) -> Sid | No
     resolved_sid = sid_resolver.dict_to_sid(fields, _type)
     if not resolved_sid:
         info('Path "{}" did resolve to fields {}, but not back to Sid'.format(path, fields))
+        return None
+
+    # the path must be the one that the resolved fields format to (literal parts, separators)
+    try:
+        if fs_resolver.dict_to_path(fields, _type, config=config) != Path(str(path)):
+            info(f'Path "{path}" is not the path of "{resolved_sid}"')
+            return None
+    except SpilException:
         return None
 
     new_sid = Sid(from_factory=True)
